@@ -27,6 +27,18 @@ theorem drain_releases (s : Sess) (sid h : Nat) (hin : (sid, h) ∈ s.streams) (
   · exact ⟨_, rfl, key.1, key.2⟩
   · exact ⟨_, rfl, key.1, key.2⟩
 
+/-- T9.1c `drain_needs_no_lock`: once `close()` has set the flag, its next step - the drain that releases every
+reader and every pending open (`drain_releases`, `drain_closes_readers`) - is enabled in EVERY state: whoever holds or
+queues for the buffer lock or the writer lock (a writer inside a transport write included), the closing task does
+not wait for them, and the step leaves the locks as they are.  Only the transport shutdown that follows needs the
+writer lock.  (The order "flag, drain, then the writer lock" is what the `cl:flag` / `cl:drained` scheduling points and
+the `stall` cases of the sched group check against the code.) -/
+theorem drain_needs_no_lock (cs : CS) (t : Nat) (k : CloseK) (h : (cs.task t).pc = .cflag k) :
+    ∃ cs', micro cs t = some cs' ∧ cs'.s = cs.s.closeDrain ∧ cs'.bufHolder = cs.bufHolder ∧ cs'.wrHolder = cs.wrHolder := by
+  refine ⟨({ cs with s := cs.s.closeDrain }.setPC t (.cdrained k)), ?_, rfl, rfl, rfl⟩
+  unfold micro
+  simp only [h]
+
 /-- T9.1a' `drain_closes_readers`: a stream that is in both tables under the same handle (every
 stream `open_stream` registered and no FIN removed) has its inbound channel closed by the drain:
 its reader obtains what was queued and then end of stream (C01 `closed_reader_read`). -/
